@@ -24,8 +24,15 @@ PROP = Property(
     design_ref='4/C02')
 
 
+def can_inject_compnames():
+    ci = R.comp_id
+    return isinstance(getattr(ci, 'componentIDs', None), dict) and hasattr(ci, 'attemptedToParseCompIDs')
+
+
 def set_compnames(compnames):
     ci = R.comp_id
+    if not can_inject_compnames():
+        return
     ci.componentIDs.clear()
     for k, v in (compnames or {}).items():
         ci.componentIDs[k] = dict(v)
@@ -36,6 +43,9 @@ def set_compnames(compnames):
 
 
 def check_pel(pel, compnames, note, every=False):
+    if compnames and not can_inject_compnames():
+        compnames = None
+        note.label('no-component-name-injection')
     set_compnames(compnames)
     try:
         data = M.encode(pel)
